@@ -10,8 +10,7 @@ history `ops` of public calls (`read_bytes_at`, `read_bytes_at_until`, `read_byt
 
 Hypotheses used throughout (all satisfiable, see the examples at the end):
 * `0 < c.chunk` — the chunk size (the real constant is 32768; it is a parameter here);
-* `F.length + c.chunk < 2^64` — the file is at least one chunk smaller than 16 EiB (otherwise
-  `round_up_to_multiple` at chunked_read_buffer_manager.rs:37 overflows: excluded point, see notes/C13.md);
+* `F.length < 2^64` — the length fits the `u64` the constructor takes;
 * `Faithful F c.src` — when the byte source succeeds on an in-bounds request it returns the file's bytes;
 * `SourceOk F c.src` (only where stated) — the byte source succeeds on every in-bounds request.
 
@@ -27,7 +26,7 @@ open CC
 length, every buffer holds exactly the file's bytes of its range, every range-map entry points to the buffer
 range it was inserted with, and every string-cache entry `(start, d) ↦ loc` holds `F[start, start+size)` with
 `size` the distance to the first `d` at or after `start`. -/
-theorem C13_invariant (c : Cfg) (F : List UInt8) (hc : 0 < c.chunk) (hsz : F.length + c.chunk < U64)
+theorem C13_invariant (c : Cfg) (F : List UInt8) (hc : 0 < c.chunk) (hsz : F.length < U64)
     (hf : Faithful F c.src) (ops : List Op) : Inv F (run c F.length ops) :=
   run_inv c F hc hsz hf ops
 
@@ -42,7 +41,7 @@ theorem C13_buffers_append_only (c : Cfg) (st : St) (op : Op) :
 own answer) — or, if the byte source fails on the buffer that has to be read (an in-bounds request inside
 the chunk-rounded hull of the requested range, `CC.SrcFails`), the clean error `err source` with the cache
 state unchanged. -/
-theorem C13_step (c : Cfg) (F : List UInt8) (hc : 0 < c.chunk) (hsz : F.length + c.chunk < U64)
+theorem C13_step (c : Cfg) (F : List UInt8) (hc : 0 < c.chunk) (hsz : F.length < U64)
     (hf : Faithful F c.src) (ops : List Op) (op : Op) :
     (step c (run c F.length ops) op).2 = spec F c.src op ∨
     ((step c (run c F.length ops) op).2 = .err .source ∧
@@ -51,7 +50,7 @@ theorem C13_step (c : Cfg) (F : List UInt8) (hc : 0 < c.chunk) (hsz : F.length +
 
 /-- Every successful range read returns precisely the bytes of the file at that range (and the range is
 inside the file unless it is empty). -/
-theorem C13_bytes (c : Cfg) (F : List UInt8) (hc : 0 < c.chunk) (hsz : F.length + c.chunk < U64)
+theorem C13_bytes (c : Cfg) (F : List UInt8) (hc : 0 < c.chunk) (hsz : F.length < U64)
     (hf : Faithful F c.src) (ops : List Op) (o n : Nat) (bs : List UInt8)
     (h : (readBytesAt c (run c F.length ops) o n).2 = .ok bs) :
     bs = slice F o n ∧ (n = 0 ∨ o + n ≤ F.length) := by
@@ -73,7 +72,7 @@ theorem C13_bytes (c : Cfg) (F : List UInt8) (hc : 0 < c.chunk) (hsz : F.length 
 
 /-- Every in-bounds range read succeeds (with the file's bytes) when the source succeeds on in-bounds
 requests. -/
-theorem C13_total (c : Cfg) (F : List UInt8) (hc : 0 < c.chunk) (hsz : F.length + c.chunk < U64)
+theorem C13_total (c : Cfg) (F : List UInt8) (hc : 0 < c.chunk) (hsz : F.length < U64)
     (hf : Faithful F c.src) (hok : SourceOk F c.src) (ops : List Op) (o n : Nat)
     (hin : o + n ≤ F.length) :
     (readBytesAt c (run c F.length ops) o n).2 = .ok (slice F o n) := by
@@ -93,7 +92,7 @@ theorem C13_total (c : Cfg) (F : List UInt8) (hc : 0 < c.chunk) (hsz : F.length 
 reports the source's failure on an in-bounds request `[o', o'+n')` with
 `roundDown o ≤ o' ≤ o`, `o+n ≤ o'+n' ≤ min (roundUp (o+n)) |F|` — it "succeeds whenever the source does". -/
 theorem C13_total_failing_source (c : Cfg) (F : List UInt8) (hc : 0 < c.chunk)
-    (hsz : F.length + c.chunk < U64) (hf : Faithful F c.src) (ops : List Op) (o n : Nat)
+    (hsz : F.length < U64) (hf : Faithful F c.src) (ops : List Op) (o n : Nat)
     (hin : o + n ≤ F.length) :
     (readBytesAt c (run c F.length ops) o n).2 = .ok (slice F o n) ∨
     ((readBytesAt c (run c F.length ops) o n).2 = .err .source ∧ SrcFailsIn c F o (o + n)) := by
@@ -112,7 +111,7 @@ theorem C13_total_failing_source (c : Cfg) (F : List UInt8) (hc : 0 < c.chunk)
 
 /-- Out-of-bounds and overflowing non-empty range reads fail cleanly (`err`, not `panic`), with any source,
 and leave the cache untouched. -/
-theorem C13_out_of_bounds (c : Cfg) (F : List UInt8) (hc : 0 < c.chunk) (hsz : F.length + c.chunk < U64)
+theorem C13_out_of_bounds (c : Cfg) (F : List UInt8) (hc : 0 < c.chunk) (hsz : F.length < U64)
     (hf : Faithful F c.src) (ops : List Op) (o n : Nat) (h0 : n ≠ 0) (hout : F.length < o + n) :
     (readBytesAt c (run c F.length ops) o n).2 = .err (if U64 ≤ o + n then .overflow else .oob) ∧
     (readBytesAt c (run c F.length ops) o n).1 = run c F.length ops := by
@@ -126,7 +125,7 @@ theorem C13_out_of_bounds (c : Cfg) (F : List UInt8) (hc : 0 < c.chunk) (hsz : F
 /-- Every successful delimited read returns the bytes from `range.start` up to (not including) the first
 delimiter at or after it: `bs = F[lo, lo+k)` where `F[lo+k] = d`, no `d` in `F[lo, lo+k)`, and the delimiter
 lies inside the requested range and within the 4096-byte limit (`lo + k < hi`, `k < 4096`). -/
-theorem C13_until (c : Cfg) (F : List UInt8) (hc : 0 < c.chunk) (hsz : F.length + c.chunk < U64)
+theorem C13_until (c : Cfg) (F : List UInt8) (hc : 0 < c.chunk) (hsz : F.length < U64)
     (hf : Faithful F c.src) (ops : List Op) (r : Range) (d : UInt8) (bs : List UInt8)
     (h : (readBytesAtUntil c (run c F.length ops) r d).2 = .ok bs) :
     ∃ k, bs = slice F r.lo k ∧ r.lo + k < r.hi ∧ r.hi ≤ F.length ∧ k < maxLenInclDelim ∧
@@ -156,7 +155,7 @@ theorem C13_until (c : Cfg) (F : List UInt8) (hc : 0 < c.chunk) (hsz : F.length 
 at `lo + k`, the delimited read succeeds with `F[lo, lo+k)` exactly when `lo + k < hi` and `k < 4096`, and
 otherwise fails cleanly with "Could not find delimiter" — whatever was read before (in particular whatever
 is in the string cache). An empty range therefore fails cleanly. -/
-theorem C13_until_total (c : Cfg) (F : List UInt8) (hc : 0 < c.chunk) (hsz : F.length + c.chunk < U64)
+theorem C13_until_total (c : Cfg) (F : List UInt8) (hc : 0 < c.chunk) (hsz : F.length < U64)
     (hf : Faithful F c.src) (hok : SourceOk F c.src) (ops : List Op) (r : Range) (d : UInt8)
     (h1 : r.lo ≤ r.hi) (h2 : r.hi ≤ F.length) :
     (∀ k, F[r.lo + k]? = some d → (∀ j, j < k → F[r.lo + j]? ≠ some d) →
@@ -202,7 +201,7 @@ the outcome of any call after any history equals `CC.spec F src op`, a function 
 alone; hence two arbitrary histories give the same outcome. (Chunk alignment is one aspect of this: the
 chunk size does not occur in `CC.spec`.) -/
 theorem C13_history_independent (c : Cfg) (F : List UInt8) (hc : 0 < c.chunk)
-    (hsz : F.length + c.chunk < U64) (hf : Faithful F c.src) (hok : SourceOk F c.src)
+    (hsz : F.length < U64) (hf : Faithful F c.src) (hok : SourceOk F c.src)
     (ops₁ ops₂ : List Op) (op : Op) :
     (step c (run c F.length ops₁) op).2 = spec F c.src op ∧
     (step c (run c F.length ops₁) op).2 = (step c (run c F.length ops₂) op).2 := by
@@ -216,15 +215,15 @@ theorem C13_history_independent (c : Cfg) (F : List UInt8) (hc : 0 < c.chunk)
 /-- … and independent of the chunk size: two caches with different chunk sizes over the same source agree
 after arbitrary (different) histories. -/
 theorem C13_chunk_independent (c₁ c₂ : Cfg) (hsrc : c₁.src = c₂.src) (F : List UInt8) (hc₁ : 0 < c₁.chunk)
-    (hc₂ : 0 < c₂.chunk) (hsz₁ : F.length + c₁.chunk < U64) (hsz₂ : F.length + c₂.chunk < U64)
+    (hc₂ : 0 < c₂.chunk) (hsz : F.length < U64)
     (hf : Faithful F c₁.src) (hok : SourceOk F c₁.src) (ops₁ ops₂ : List Op) (op : Op) :
     (step c₁ (run c₁ F.length ops₁) op).2 = (step c₂ (run c₂ F.length ops₂) op).2 := by
-  rw [(C13_history_independent c₁ F hc₁ hsz₁ hf hok ops₁ ops₁ op).1,
-      (C13_history_independent c₂ F hc₂ hsz₂ (hsrc ▸ hf) (hsrc ▸ hok) ops₂ ops₂ op).1, hsrc]
+  rw [(C13_history_independent c₁ F hc₁ hsz hf hok ops₁ ops₁ op).1,
+      (C13_history_independent c₂ F hc₂ hsz (hsrc ▸ hf) (hsrc ▸ hok) ops₂ ops₂ op).1, hsrc]
 
 /-- No call panics after any history, with any faithful source (failing or not): no `assert!` fails, no
 slice or vector index is out of range, no `u64` operation overflows or underflows. -/
-theorem C13_no_panic (c : Cfg) (F : List UInt8) (hc : 0 < c.chunk) (hsz : F.length + c.chunk < U64)
+theorem C13_no_panic (c : Cfg) (F : List UInt8) (hc : 0 < c.chunk) (hsz : F.length < U64)
     (hf : Faithful F c.src) (ops : List Op) (op : Op) :
     (step c (run c F.length ops) op).2 ≠ .panic := by
   rcases C13_step c F hc hsz hf ops op with hs | ⟨hs, _⟩
@@ -264,13 +263,22 @@ theorem C13_legacy_counterexample_cache_ignores_end :
         (readBytesAtUntil C13_legacyCfg (St.init 20) ⟨4, 20⟩ 0).1 ⟨4, 8⟩ 0).2 = .err .noDelim := by
   decide
 
+/-- Pre-9c4312ce: planning the in-bounds read `[2^64-16, 2^64-11)` of a file of length `2^64-1` (chunk size
+32768) panics because `round_up_to_multiple` overflows, while the repaired code plans the buffer
+`[2^64-32768, 2^64-1)`. -/
+theorem C13_legacy_counterexample_round_up_overflow :
+    determineRangeSourcingLegacy realChunk ⟨U64 - 1, [], []⟩ ⟨U64 - 16, U64 - 11⟩ = .panic ∧
+    determineRangeSourcing realChunk ⟨U64 - 1, [], []⟩ ⟨U64 - 16, U64 - 11⟩
+      = .ok (.needNew ⟨U64 - 32768, U64 - 1⟩) := by
+  decide
+
 /-! ### Non-vacuity: the hypotheses are satisfiable and the conclusions are about real behaviour -/
 
 /-- the plain in-memory source satisfies both source hypotheses, for every file -/
 example (F : List UInt8) : Faithful F (srcOf F) ∧ SourceOk F (srcOf F) :=
   ⟨faithful_srcOf F, sourceOk_srcOf F⟩
 
-example : 0 < C13_legacyCfg.chunk ∧ C13_legacyFile.length + C13_legacyCfg.chunk < U64 := by decide
+example : 0 < C13_legacyCfg.chunk ∧ C13_legacyFile.length < U64 := by decide
 
 /-- the scenario of the repo's unit test `not_rounding_down_when_start_straddles_into_old_chunk`, on real
 bytes: the third read is served from the second buffer (which starts mid-chunk at 6), the fourth from the
